@@ -151,7 +151,7 @@ class Intersection(ConvexRegion):
     ''' See https://en.wikipedia.org/wiki/Dykstra's_projection_algorithm '''
     x = np.array(point)
     y = p = q = c = 0
-    while isinstance(y, int) or c < self._maxiter and not (self._a.is_in(y) and self._b.is_in(y) and self._a.is_in(x)):
+    while isinstance(y, int) or c < self._maxiter and not ((np.abs(x - y) <= self.tol).all() and self._a.is_in(x)):
       y = self._a.project(x + p)
       p = x + p - y
       x = self._b.project(y + q)
